@@ -94,6 +94,7 @@ class Ctx:
             return sh, r
 
         nrec = 0
+        nviol_here = 0
         t0 = time.time()
         with cf.ThreadPoolExecutor(max_workers=par) as ex:
             for sh, r in ex.map(one, shards):
@@ -111,7 +112,8 @@ class Ctx:
                         if len(self.drift_samples) < 3 and rec is not None:
                             self.drift_samples.append(rec)
                     elif inv in prop_invs:
-                        if len(self.violations) < 50:
+                        nviol_here += 1
+                        if nviol_here <= 12:        # (per stage: a later stage's candidates must not be crowded out)
                             self.violations.append({"inv": inv, "record": rec, "shard": sh, "i": i,
                                                     "replay": replay(rec) if (replay and rec) else None})
         self.traces += nrec
